@@ -198,7 +198,7 @@ theorem C17_build_rejects_bad_port (e : Env) (a : BuildArgs) (henc : a.encoded =
     (a.portKind = 0 → (qargTruthy a.query = true → ∃ r, getStrQuery e.b a.query = .ok r) →
       (∃ sc, lowerAny e a.scheme = .ok sc) →
       (isAscii a.authority = false →
-        ∃ nn, e.o.nfkc (a.authority.filter (fun c => c ≠ 64 ∧ c ≠ 58 ∧ c ≠ 35 ∧ c ≠ 63)) = some nn) →
+        ∃ nn, e.o.nfkc (a.authority.filter (fun c => c ≠ 64 ∧ c ≠ 58 ∧ c ≠ 35 ∧ c ≠ 63 ∧ c ≠ 91 ∧ c ≠ 93)) = some nn) →
       build e a = .error .valueError) := by
   have hsn : splitNetloc e.o a.authority = .error .valueError :=
     C17_headline_port_rejected e.o a.authority hne hbad
